@@ -20,7 +20,7 @@ Qed.
 
 Lemma fallback add d : unusable d -> open add true d = open add false d.
 Proof.
-  intros H. unfold open. rewrite (usable_unusable d H). reflexivity.
+  intros H. unfold open, open_at. rewrite (usable_unusable d H). reflexivity.
 Qed.
 
 (* the snapshot option switched off is the WAL-only restart whatever is on disk *)
@@ -62,7 +62,7 @@ Lemma open_exemplars enabled d x :
   In x (h_ex (open add_ex enabled d)) ->
   (exists s, usable enabled d = Some s /\ In x (sn_ex s)) \/ wal_exemplar d x.
 Proof.
-  unfold open. destruct (usable enabled d) as [s|] eqn:Hu; intros H.
+  unfold open, open_at. destruct (usable enabled d) as [s|] eqn:Hu; intros H.
   - apply replay_ex in H. destruct H as [H | (e & He & Hr)].
     + left. exists s. split; [reflexivity|]. cbn in H.
       apply fold_add_incl in H. destruct H as [[] | H]. apply filter_In in H. tauto.
@@ -234,9 +234,9 @@ Proof.
     apply IH. intros y Hy. apply H. now right.
 Qed.
 
-Lemma attach_fold hc l : forall acc,
+Lemma attach_fold mm0 hc l : forall acc,
   (forall c, In c l -> hc = [] \/ cmax c < cmin hc) ->
-  fold_left attach l (mkMS acc 0 hc) = mkMS (acc ++ l) 0 hc.
+  fold_left attach l (mkMS acc mm0 hc) = mkMS (acc ++ l) mm0 hc.
 Proof.
   induction l as [|c l IH]; intros acc H; cbn [fold_left]; [now rewrite app_nil_r|].
   unfold attach at 2. cbn [ms_mm ms_mmMax ms_hc].
@@ -291,8 +291,8 @@ Proof.
     assert (c <> []) as Hn by (apply Hne; apply in_or_app; now right).
     destruct (exists_last Hn) as (l' & z & ->). rewrite last_last. apply in_or_app. right. now left. }
   (* path a *)
-  assert (Ha : a = mkMS keep 0 hc).
-  { unfold a, snap_series. rewrite Hload. rewrite attach_fold; [reflexivity|].
+  assert (Ha : a = mkMS keep minInt64 hc).
+  { unfold a, snap_series, snap_series_at. rewrite Hload. rewrite attach_fold; [reflexivity|].
     intros c Hc. destruct hc as [|y hc']; [now left|]. right.
     unfold cmax, last_ts, cmin, first_ts. apply Hlt_keep; [now apply Hcmax_in | now left]. }
   (* path b *)
